@@ -366,6 +366,12 @@ class Resolver:
                 if isinstance(n.value, (ast.Tuple, ast.List)) and isinstance(n.slice, ast.Constant) and isinstance(n.slice.value, int) \
                         and -len(n.value.elts) <= n.slice.value < len(n.value.elts):
                     return n.value.elts[n.slice.value]
+                # E[:k][j] -> E[j]  for constants 0 <= j < k
+                if isinstance(n.value, ast.Subscript) and isinstance(n.value.slice, ast.Slice) and n.value.slice.lower is None \
+                        and n.value.slice.step is None and isinstance(n.value.slice.upper, ast.Constant) \
+                        and isinstance(n.value.slice.upper.value, int) and isinstance(n.slice, ast.Constant) \
+                        and isinstance(n.slice.value, int) and 0 <= n.slice.value < n.value.slice.upper.value:
+                    return ast.Subscript(value=n.value.value, slice=n.slice, ctx=ast.Load())
                 # (a if c else b)[k] -> (a[k] if c else b[k])   (constant k: element of a two-way choice of tuples)
                 if isinstance(n.value, ast.IfExp) and isinstance(n.slice, ast.Constant):
                     mk = lambda v: self.visit_Subscript(ast.Subscript(value=v, slice=n.slice, ctx=ast.Load()))
